@@ -118,3 +118,31 @@ func HarnessOwnershipStep() {
 		_ = i
 	}
 }
+
+// A status update never changes who owns a task: a TASK_RUNNING update for a task owned by an environment, coming
+// from the executor (agent and executor id) or from the master as a reconciliation answer (agent id only, or none),
+// leaves it locked by its role, and the cleanup of unowned tasks that follows (every environment creation starts
+// with one) neither kills it nor drops it from the roster.
+//verif:entry HarnessStatusUpdateKeepsOwnership unwind=24 preempt=1 reach=kept stub=github.com/AliceO2Group/Control/common/utils.TimeTrack
+func HarnessStatusUpdateKeepsOwnership() {
+	env := uid.ID("2envAAAAAAA")
+	t, role := ftTask("x", env, true)
+	w := ftManager(Tasks{t}, nil)
+	run := mesos.TASK_RUNNING
+	st := mesos.TaskStatus{TaskID: mesos.TaskID{Value: t.taskId}, State: &run}
+	if vrt.Bool("update.has.agent.id") {
+		st.AgentID = &mesos.AgentID{Value: t.agentId}
+	}
+	if vrt.Bool("update.has.executor.id") {
+		st.ExecutorID = &mesos.ExecutorID{Value: t.executorId}
+	}
+	if vrt.Bool("reason.reconciliation") {
+		r := mesos.REASON_RECONCILIATION
+		st.Reason = &r
+	}
+	vrt.Assert(w.m.handleMessage(NewTaskStatusMessage(st)) == nil, "status-update-is-handled")
+	vrt.Assert(t.parent == parentRole(role) && t.IsLocked(), "a-status-update-never-changes-the-owner-of-a-task")
+	w.m.Cleanup()
+	vrt.Assert(w.caller.killed(t.taskId) == 0 && w.m.GetTask(t.taskId) == t && t.IsLocked(), "kill-and-cleanup-never-touch-owned-tasks")
+	vrt.Reach("kept")
+}
